@@ -240,7 +240,7 @@ func runC18(c *Ctx) {
 				okD = false
 
 				for _, in := range Find(g, func(in ssa.Instruction) bool { _, ok := in.(*ssa.Store); return ok }) {
-					if Glob("free:var:err", p.Desc(in.(*ssa.Store).Addr)) {
+					if Glob("free:var:error*", p.Desc(in.(*ssa.Store).Addr)) {
 						okD = true
 					}
 				}
